@@ -118,14 +118,66 @@ theorem assign_plain (md : MD) (fs : List F) (idx : Nat) (fd : FD) (f : F) (h : 
   unfold assign
   cases hc : fd.card <;> first | rfl | exact absurd hc (h _)
 
-theorem fold_scalars_rep (md : MD) (idx : Nat) (fd : FD) (k : SK) (hno : ∀ g, fd.card ≠ .oneof g)
-    (hrep : isRep fd.card = true) (unk : Bytes) : ∀ (vs acc : List V) (fs : List F), idx < fs.length →
+/-- `assign` behaves as a plain update on every state that agrees with `fs` away from `idx`
+    (true for non-members of a oneof, and for a oneof member whose siblings are all unset) -/
+def AssignPlain (md : MD) (fd : FD) (idx : Nat) (fs : List F) : Prop :=
+  ∀ (fs' : List F) (x : F), fs'.length = fs.length → (∀ j, j ≠ idx → fs'[j]? = fs[j]?) →
+    assign md fs' idx fd x = fs'.set idx x
+
+theorem AssignPlain.of_plain (md : MD) (fd : FD) (idx : Nat) (fs : List F) (h : ∀ g, fd.card ≠ .oneof g) :
+    AssignPlain md fd idx fs := fun fs' x _ _ => assign_plain md fs' idx fd x h
+
+theorem AssignPlain.set {md : MD} {fd : FD} {idx : Nat} {fs : List F} (h : AssignPlain md fd idx fs) (y : F) :
+    AssignPlain md fd idx (fs.set idx y) := by
+  intro fs' x hl hag
+  apply h fs' x (by simpa using hl)
+  intro j hj
+  rw [hag j hj, List.getElem?_set_ne (fun e => hj e.symm)]
+
+theorem AssignPlain.self {md : MD} {fd : FD} {idx : Nat} {fs : List F} (h : AssignPlain md fd idx fs) (x : F) :
+    assign md fs idx fd x = fs.set idx x := h fs x rfl (fun _ _ => rfl)
+
+/-- `assign` on a oneof member all of whose siblings are unset is a plain update as well -/
+theorem AssignPlain.of_clean (md : MD) (fd : FD) (idx : Nat) (fs : List F) (hlen : md.length = fs.length)
+    (h : ∀ g, fd.card = .oneof g → ∀ j fdj, md[j]? = some fdj → fdj.card = .oneof g → j ≠ idx → fs[j]? = some .unset) :
+    AssignPlain md fd idx fs := by
+  intro fs' x hl hag
+  unfold assign
+  cases hc : fd.card
+  case oneof g =>
+    simp only []
+    apply List.ext_getElem?
+    intro j
+    by_cases e : idx = j
+    · subst e
+      simp [List.getElem?_set, List.length_zip, hlen, hl]
+    · have hj : j ≠ idx := fun x => e x.symm
+      rw [List.getElem?_set_ne e, List.getElem?_set_ne e, List.getElem?_map, List.zip_eq_zipWith, List.getElem?_zipWith]
+      cases hm : md[j]? with
+      | none =>
+        have : fs'[j]? = none := by
+          rw [List.getElem?_eq_none_iff] at hm ⊢; omega
+        simp [this]
+      | some fdj =>
+        cases hf : fs'[j]? with
+        | none => simp
+        | some fj =>
+          simp only [Option.map_some]
+          by_cases hg : fdj.card = Card.oneof g
+          · have := h g hc j fdj hm hg hj
+            rw [← hag j hj, hf] at this
+            simp [hg, Option.some.inj this]
+          · simp [hg]
+  all_goals rfl
+
+theorem fold_scalars_rep (md : MD) (idx : Nat) (fd : FD) (k : SK)
+    (hrep : isRep fd.card = true) (unk : Bytes) : ∀ (vs acc : List V) (fs : List F), AssignPlain md fd idx fs → idx < fs.length →
     fs.getD idx .unset = .many acc →
     (vs.map (WRec.scalar idx fd k)).foldl (WRec.apply md) (fs, unk) = (fs.set idx (.many (acc ++ vs.map (decodedV k))), unk) := by
   intro vs
   induction vs with
   | nil =>
-    intro acc fs hlt hcur
+    intro acc fs _ hlt hcur
     simp only [List.map_nil, List.foldl_nil, List.append_nil]
     congr 1
     have hget : fs[idx] = F.many acc := by
@@ -134,9 +186,9 @@ theorem fold_scalars_rep (md : MD) (idx : Nat) (fd : FD) (k : SK) (hno : ∀ g, 
       simpa using this
     rw [← hget, List.set_getElem_self]
   | cons v vs ih =>
-    intro acc fs hlt hcur
-    simp only [List.map_cons, List.foldl_cons, WRec.apply, hrep, if_true, assign_plain md fs idx fd _ hno, hcur, appendTo]
-    rw [ih (acc ++ [decodedV k v]) (fs.set idx (.many (acc ++ [decodedV k v]))) (by simpa using hlt)
+    intro acc fs hap hlt hcur
+    simp only [List.map_cons, List.foldl_cons, WRec.apply, hrep, if_true, hap.self, hcur, appendTo]
+    rw [ih (acc ++ [decodedV k v]) (fs.set idx (.many (acc ++ [decodedV k v]))) (hap.set _) (by simpa using hlt)
       (by simp [List.getD_eq_getElem?_getD, List.getElem?_set_self hlt])]
     simp [List.set_set]
 
@@ -157,8 +209,8 @@ theorem initField_rep (fd : FD) (h : isRep fd.card = true) : initField fd = .man
   cases hc : fd.card <;> simp [isRep, hc] at h <;> simp [initField, hc]
 
 /-- decoding the records of one field, starting from the freshly reset field -/
-theorem field_fold (md : MD) (idx : Nat) (fd : FD) (f : F) (fs : List F) (unk : Bytes)
-    (hno : ∀ g, fd.card ≠ .oneof g) (hsh : ShapeOK fd f) (hlt : idx < fs.length)
+theorem field_fold' (md : MD) (idx : Nat) (fd : FD) (f : F) (fs : List F) (unk : Bytes)
+    (hap : AssignPlain md fd idx fs) (hsh : ShapeOK fd f) (hlt : idx < fs.length)
     (hcur : fs.getD idx .unset = initField fd) :
     (fieldRecs idx fd f).foldl (WRec.apply md) (fs, unk) = (fs.set idx (canonField fd f), unk) := by
   cases f with
@@ -167,7 +219,7 @@ theorem field_fold (md : MD) (idx : Nat) (fd : FD) (f : F) (fs : List F) (unk : 
     simp only [ShapeOK] at hsh
     have hone : ([WRec.scalar idx fd (kindOf fd) v]).foldl (WRec.apply md) (fs, unk)
         = (fs.set idx (.one (decodedV (kindOf fd) v)), unk) := by
-      simp [WRec.apply, hsh, assign_plain md fs idx fd _ hno]
+      simp [WRec.apply, hsh, hap.self]
     cases hc : fd.card <;> simp only [fieldRecs, canonField, hc] <;>
       first
         | exact hone
@@ -180,7 +232,7 @@ theorem field_fold (md : MD) (idx : Nat) (fd : FD) (f : F) (fs : List F) (unk : 
     rw [hinit] at hcur
     have hlist : (vs.map (WRec.scalar idx fd (kindOf fd))).foldl (WRec.apply md) (fs, unk)
         = (fs.set idx (.many (vs.map (decodedV (kindOf fd)))), unk) := by
-      have := fold_scalars_rep md idx fd (kindOf fd) hno hrep unk vs [] fs hlt hcur
+      have := fold_scalars_rep md idx fd (kindOf fd) hrep unk vs [] fs hap hlt hcur
       simpa using this
     cases hc : fd.card <;> simp only [fieldRecs, canonField, hc] <;>
       first
@@ -192,7 +244,13 @@ theorem field_fold (md : MD) (idx : Nat) (fd : FD) (f : F) (fs : List F) (unk : 
            · simp only [he]
              have hcur' : fs[idx]?.getD F.unset = F.many [] := by
                simpa [List.getD_eq_getElem?_getD] using hcur
-             simp [WRec.apply, assign_plain md fs idx fd _ hno, hcur', appendTo, decodedVs_eq _ vs (hpk hc)])
+             simp [WRec.apply, hap.self, hcur', appendTo, decodedVs_eq _ vs (hpk hc)])
+
+theorem field_fold (md : MD) (idx : Nat) (fd : FD) (f : F) (fs : List F) (unk : Bytes)
+    (hno : ∀ g, fd.card ≠ .oneof g) (hsh : ShapeOK fd f) (hlt : idx < fs.length)
+    (hcur : fs.getD idx .unset = initField fd) :
+    (fieldRecs idx fd f).foldl (WRec.apply md) (fs, unk) = (fs.set idx (canonField fd f), unk) :=
+  field_fold' md idx fd f fs unk (AssignPlain.of_plain md fd idx fs hno) hsh hlt hcur
 
 /-- all records of a message, field by field -/
 def msgRecs : Nat → MD → List F → List WRec
